@@ -44,42 +44,36 @@ theorem union_iter_eq_overlay (snap buf : List KV) (lo hi : Bytes) (rev : Bool)
 example : IsMap [([1], [5]), ([1, 0], [6]), ([255], [7])] ∧ IsMap [([], [1]), ([1], []), ([1, 0, 0], [2])] ∧
     NoEmpty [([1], [5]), ([1, 0], [6]), ([255], [7])] := by decide
 
+/-- `NoEmpty snap` is needed: the iterator hands out a snapshot record with an empty value as it is, while `Get`
+(and the view) treat the empty value as "not found" — a snapshot never holds one (TiKV has no empty values) -/
+example : storeIter [([1], [])] [] [] [] false = [([1], [])] ∧ viewDir [([1], [])] [] [] [] false = [] ∧
+    unionGet [([1], [])] [] [1] = none := by decide
+
 /-- `KVUnionStore.Get`: buffer first, snapshot on a miss, an empty value is "not found" -/
 theorem union_get_eq_overlay (snap buf : List KV) (k : Bytes) : unionGet snap buf k = viewGet snap buf k :=
   unionGet_eq_viewGet snap buf k
 
-/-- `BufferBatchGetter.BatchGet` (with the key list for the snapshot computed against the complete buffer
-answer): for ANY key list — duplicates included — the result holds exactly the requested keys that have a
-value under `Get`, with that value. -/
-theorem batch_get_eq_pointwise (snap buf : List KV) (keys : List Bytes) (k : Bytes) :
-    lookup (batchGet snap buf keys) k = if k ∈ keys then unionGet snap buf k else none := by
-  rw [lookup_batchGet, unionGet_eq_viewGet]
+/-- `BufferBatchGetter.BatchGet` (the code of /repo after cbfc345, modelled line by line): for ANY key list —
+duplicates included — the result is a well formed map (no key twice) that holds exactly the requested keys that
+have a value under `Get`, with that value: deletions hide snapshot keys, the buffer wins, absent keys have no
+entry. -/
+theorem batch_get_eq_pointwise (snap buf : List KV) (keys : List Bytes) :
+    IsMap (batchGet snap buf keys) ∧
+    (∀ k, lookup (batchGet snap buf keys) k = if k ∈ keys then unionGet snap buf k else none) ∧
+    (∀ k v, (k, v) ∈ batchGet snap buf keys ↔ k ∈ keys ∧ unionGet snap buf k = some v) := by
+  have hl : ∀ k, lookup (batchGet snap buf keys) k = if k ∈ keys then unionGet snap buf k else none := by
+    intro k; rw [lookup_batchGet, unionGet_eq_viewGet]
+  refine ⟨batchGet_sorted snap buf keys, hl, fun k v => ?_⟩
+  rw [mem_iff_lookup (batchGet_sorted snap buf keys), hl]
+  by_cases hk : k ∈ keys <;> simp [hk]
 
-/-- The full statement for the loop AS IT STANDS in batch_getter.go at the pinned commit (`batchGetAsIs`: the
-tombstone is removed from `bufferValues` inside the loop).  It is FALSE — see `batch_get_as_is_eq_pointwise_false`;
-what holds is `batch_get_as_is_eq_pointwise_partial`. -/
-def batch_get_as_is_eq_pointwise : Prop :=
-  ∀ (snap buf : List KV) (keys : List Bytes) (k : Bytes),
-    lookup (batchGetAsIs snap buf keys) k = if k ∈ keys then unionGet snap buf k else none
-
-/-- with snapshot {01 ↦ aa}, the key deleted in the buffer and the key list [01, 01], the loop as found hands the
-snapshot value back (the second occurrence no longer finds the tombstone and goes to the snapshot).  The
-differential finds the same on the real code: `sput 01 aa ; del 01 ; pbget 01 01`. -/
-theorem batch_get_as_is_eq_pointwise_false : ¬ batch_get_as_is_eq_pointwise := by
-  intro h
-  exact absurd (h [([1], [0xaa])] [([1], [])] [[1], [1]] [1]) (by decide)
-
-/-- the loop as found is right exactly on key lists without duplicates (there it agrees with the repaired loop) -/
-theorem batch_get_as_is_eq_pointwise_partial (snap buf : List KV) (keys : List Bytes) (hnd : keys.Nodup) (k : Bytes) :
-    lookup (batchGetAsIs snap buf keys) k = if k ∈ keys then unionGet snap buf k else none := by
-  rw [lookup_batchGetAsIs snap buf keys hnd, lookup_batchGet, unionGet_eq_viewGet]
-
-example : ([[1], [1, 0], []] : List Bytes).Nodup := by decide
-
-/-- Read-your-writes in program order.  After ANY sequence of set / delete / staging / release / cleanup on an
-empty buffer, `Get`, `Iter`/`IterReverse` and `BatchGet` answer like the snapshot overlaid with the writes that
-are still live (`liveWrites`: cleanup drops its level's writes, release keeps them), the latest write of a key
-winning, a deletion hiding the snapshot record. -/
+/-- Read-your-writes in program order, for ALL interleavings of set / delete / staging / release / cleanup /
+checkpoint / revert on an empty buffer (arbitrary nesting of staging levels and checkpoints; a revert that is
+not admissible — checkpoint gone, or a newer staging level still open — is refused by model and specification
+alike and changes nothing).  `Get`, `Iter`/`IterReverse` (all bounds, both directions) and `BatchGet` (all key
+lists) answer like the snapshot overlaid with the writes that are still live (`liveWrites`: cleanup drops its
+level's writes and every newer mark, revert drops everything written after the checkpoint, release keeps the
+writes), the latest write of a key winning, a deletion hiding the snapshot record. -/
 theorem txn_view_after_ops (snap : List KV) (ops : List BOp) (hsnap : IsMap snap) (hne : NoEmpty snap) :
     let buf := (Buf.empty.run ops).cur
     (∀ k, unionGet snap buf k = viewGet snap (liveWrites ops) k) ∧
@@ -95,40 +89,88 @@ theorem txn_view_after_ops (snap : List KV) (ops : List BOp) (hsnap : IsMap snap
 
 example : IsMap [([1], [5]), ([2], [6])] ∧ NoEmpty [([1], [5]), ([2], [6])] := by decide
 
-/-- Discarding a staging level restores exactly the state — content and outer levels, hence every view —
-that existed when it was taken, whatever happened inside (nested levels included). -/
+/-- the specification really distinguishes the three ways a level can end: after
+`set 1; staging; set 2; checkpoint; set 3; revert 0; release` the live writes are 2 and 1, after the same with
+`cleanup` instead of `release` only 1 -/
+example : liveWrites [.set [1] [9], .staging, .set [2] [9], .checkpoint, .set [3] [9], .revert 0, .release]
+      = [([2], [9]), ([1], [9])] ∧
+    liveWrites [.set [1] [9], .staging, .set [2] [9], .checkpoint, .set [3] [9], .revert 0, .cleanup]
+      = [([1], [9])] := by decide
+
+/-- Discarding a staging level restores exactly the state — content and every older undo mark, hence every view
+and every later rollback — that existed when it was taken, whatever happened inside: nested staging levels to any
+depth, checkpoints, reverts (a revert cannot reach below the level: it is refused). -/
 theorem cleanup_restores_view (b : Buf) (ops : List BOp) (h : Bracketed ops) :
     b.run (.staging :: ops ++ [.cleanup]) = b := by
-  obtain ⟨cur', h1⟩ := staging_block b ops h
-  rw [run_append, h1]
-  simp [Buf.run, Buf.apply, Buf.cleanupTop]
+  obtain ⟨cur', top', h1, h2⟩ := run_block ⟨true, b.cur⟩ b.marks ops 0 0 b.cur [] rfl h (Or.inl rfl)
+  have h1' : b.run (.staging :: ops) = ⟨cur', top' ++ ⟨true, b.cur⟩ :: b.marks⟩ := by
+    simpa [Buf.run, Buf.apply, Buf.staging] using h1
+  rw [run_append, h1']
+  simp [Buf.run, Buf.apply, Buf.cleanupTop, cutAtStage_floor ⟨true, b.cur⟩ b.marks rfl top' h2]
 
-/-- Releasing a level keeps its writes: the content is untouched, only the undo boundary goes. -/
+/-- Releasing a level keeps its writes: the content is untouched; the level's own undo mark goes, the older
+marks are as before, and the only marks left above them are checkpoints taken inside the level. -/
 theorem release_keeps_writes (b : Buf) (ops : List BOp) (h : Bracketed ops) :
-    b.run (.staging :: ops ++ [.release]) = ⟨(b.run (.staging :: ops)).cur, b.stages⟩ := by
-  obtain ⟨cur', h1⟩ := staging_block b ops h
-  rw [run_append, h1]
-  simp [Buf.run, Buf.apply, Buf.releaseTop]
+    ∃ cur' top', (∀ m ∈ top', m.isStage = false) ∧
+      b.run (.staging :: ops) = ⟨cur', top' ++ ⟨true, b.cur⟩ :: b.marks⟩ ∧
+      b.run (.staging :: ops ++ [.release]) = ⟨cur', top' ++ b.marks⟩ := by
+  obtain ⟨cur', top', h1, h2⟩ := run_block ⟨true, b.cur⟩ b.marks ops 0 0 b.cur [] rfl h (Or.inl rfl)
+  have h1' : b.run (.staging :: ops) = ⟨cur', top' ++ ⟨true, b.cur⟩ :: b.marks⟩ := by
+    simpa [Buf.run, Buf.apply, Buf.staging] using h1
+  refine ⟨cur', top', (stageCount_zero_iff top').1 h2, h1', ?_⟩
+  rw [run_append, h1']
+  simp [Buf.run, Buf.apply, Buf.releaseTop, dropFirstStage_floor ⟨true, b.cur⟩ b.marks rfl top' h2]
 
-example : Bracketed [.set [1] [2], .staging, .del [1], .cleanup, .staging, .set [3] [4], .release] := by decide
+example : Bracketed [.set [1] [2], .staging, .checkpoint, .del [1], .revert 0, .cleanup, .staging,
+    .set [3] [4], .checkpoint, .release, .revert 0] := by decide
 
-/-- `Release(h)` / `Cleanup(h)` with the innermost live handle are the `release` / `cleanup` of the op alphabet
-(other handles: 0 is ignored, a stale handle panics, a too large one is ignored by `Cleanup` only). -/
+/-- Savepoints: reverting to a checkpoint restores exactly the content (hence every view) it was taken in, keeps
+the checkpoint itself (it can be used again) and leaves the older marks as they are, after ANY block of
+operations that keeps the checkpoint alive: sets, deletes, nested staging levels to any depth (released or
+cleaned up), further checkpoints, reverts to this or to newer checkpoints, even releases of `n` staging levels
+that are OLDER than the checkpoint (then exactly those `n` marks are missing afterwards).  Excluded are only the
+two things that cut the checkpoint out of the value log: a cleanup of an older level and a revert to an older
+checkpoint. -/
+theorem revert_restores_view (b : Buf) (ops : List BOp) (n : Nat)
+    (h : cpBlock 0 0 ops = some (0, n)) (hr : RevertsAtLeast (cpCount b.marks) ops) :
+    b.run (.checkpoint :: ops ++ [.revert (cpCount b.marks)]) =
+      ⟨b.cur, ⟨false, b.cur⟩ :: dropStages n b.marks⟩ := by
+  obtain ⟨cur', top', k, h1, h2, h3⟩ :=
+    run_block_cp ⟨false, b.cur⟩ rfl ops 0 0 0 n b.cur [] b.marks rfl h hr
+  have hk : k = n := by omega
+  subst hk
+  have h1' : b.run (.checkpoint :: ops) = ⟨cur', top' ++ ⟨false, b.cur⟩ :: dropStages k b.marks⟩ := by
+    simpa [Buf.run, Buf.apply, Buf.checkpoint] using h1
+  have hc := cutAtCp_floor ⟨false, b.cur⟩ (dropStages k b.marks) rfl top' h2
+  rw [cpCount_dropStages] at hc
+  rw [run_append, h1']
+  simp [Buf.run, Buf.apply, Buf.revert, hc]
+
+/-- in particular, when the block releases no older level, the whole state right after `Checkpoint()` is back -/
+theorem revert_restores_state (b : Buf) (ops : List BOp)
+    (h : cpBlock 0 0 ops = some (0, 0)) (hr : RevertsAtLeast (cpCount b.marks) ops) :
+    b.run (.checkpoint :: ops ++ [.revert (cpCount b.marks)]) = b.checkpoint.1 :=
+  revert_restores_view b ops 0 h hr
+
+example : cpBlock 0 0 [.set [1] [2], .staging, .checkpoint, .set [1] [3], .revert 1, .release, .revert 0, .del [2]]
+      = some (0, 0) ∧
+    RevertsAtLeast 0 [.set [1] [2], .staging, .checkpoint, .set [1] [3], .revert 1, .release, .revert 0, .del [2]] := by
+  decide
+
+/-- a block that releases an older level: `staging; checkpoint; set; release; revert 0` -/
+example : cpBlock 0 0 [.set [1] [2], .release, .staging, .del [1], .cleanup] = some (0, 1) ∧
+    (Buf.run ⟨[], [⟨true, []⟩]⟩ [.checkpoint, .set [1] [2], .release, .revert 0]) = ⟨[], [⟨false, []⟩]⟩ := by
+  decide
+
+/-- without the second hypothesis the statement is false, and rightly so: reverting to an older checkpoint
+invalidates the newer one, a later `revert` to its number is refused -/
+example : (Buf.run ⟨[], [⟨false, []⟩]⟩ [.checkpoint, .set [1] [2], .revert 0, .revert 1]).marks = [⟨false, []⟩] := by
+  decide
+
+/-- `Release(h)` / `Cleanup(h)` with the innermost live handle (`h = len(stages)`) are the `release` / `cleanup` of
+the op alphabet (other handles: 0 is ignored, a stale handle panics, a too large one is ignored by `Cleanup`). -/
 theorem innermost_handle (b : Buf) :
-    b.release b.stages.length = some b.releaseTop ∧ b.cleanup b.stages.length = some b.cleanupTop :=
+    b.release b.depth = some b.releaseTop ∧ b.cleanup b.depth = some b.cleanupTop :=
   ⟨release_innermost b, cleanup_innermost b⟩
-
-/-- Savepoints at the abstract level: reverting to a checkpoint restores exactly the state it was taken in,
-after any sets and deletes.  NOTE: on the real buffers (ART and RBT) a checkpoint is a position in the value
-log, and this is known to FAIL for a same-length overwrite done in place (DESIGN §6 S10:
-`Set k aa; cp; Set k bb; Revert cp; Get k = bb`); that is the mechanism level, owned by the C08 check — here the
-statement is about the abstract buffer, and the differential exercises `revert` on the real buffers outside
-that pattern only. -/
-theorem revert_restores_view (b : Buf) (ops : List BOp) (h : WritesOnly ops) :
-    (b.run ops).revertTo b.checkpoint = b := by
-  have : (b.run ops).stages = b.stages := run_writes_stages b ops h
-  simp [Buf.revertTo, Buf.checkpoint, this]
-
-example : WritesOnly [.set [1] [2], .del [1], .set [1] [3]] := by decide
 
 end CGV.Props.C07
